@@ -83,7 +83,7 @@ Section Complete.
 
   Theorem records_are_evaluations ops : forall st recs S T Ti la S', Forall (SpecSem.sop_ok n) ops -> wfgens (Stab.gens st) ->
     eqs S (G (Stab.gens st)) -> Run.good n T Ti -> Run.Inv n T S ->
-    FrameProg.realize (fun _ => false) (map ev recs) (map SpecSem.tr ops) la -> Run.sem_run S la S' -> agrees ops (st, recs) la ->
+    FrameProg.realize (fun v => ev (SpecSem.varf v)) (map ev recs) (map SpecSem.tr ops) la -> Run.sem_run S la S' -> agrees ops (st, recs) la ->
     fold_left push la (map ev recs) = map ev (snd (fold_left (fun s o => SpecSem.sexec o s) ops (st, recs))).
   Proof.
     induction ops as [|o ops IH]; intros st recs S T Ti la S' Hok Hgs He GT I Hre Hrun Hag; cbn [map fold_left] in *.
@@ -94,7 +94,7 @@ Section Complete.
       (* tracking the run by the simulator *)
       assert (Htrack : FrameRun.ok_op n o1 -> exists T1 Ti1, Run.good n T1 Ti1 /\ Run.Inv n T1 Sa1).
       { intros Hop. destruct (RunComplete.step_complete n T Ti S o1 r1 Sa1 Hop GT I Hastep) as ([T1 Ti1] & _ & G1 & I1). now exists T1, Ti1. }
-      destruct o as [e q|e a b|sgn P|F k]; cbn [SpecSem.sop_ok SpecSem.sexec SpecSem.tr] in *.
+      destruct o as [e q|e a b|sgn P|F k|F v]; cbn [SpecSem.sop_ok SpecSem.sexec SpecSem.tr] in *.
       + destruct Ho as (Hq & Hin & Hu). inversion Hre as [| ? C Ci ? l' Hre' | |]; subst.
         destruct (SpecSem.gate1_sound n ev (evk_fflip B kf) e q (Stab.gens st) Hq Hin Hu Hgs) as (Hgs1 & S1 & Hs1 & He1).
         assert (Hop : FrameRun.ok_op n (TableGood.table_op1 q e)) by (split; [apply TableGood.table_gate_good1| apply TableGood.table_gate_good1_inv]; assumption).
@@ -140,6 +140,14 @@ Section Complete.
         pose proof (sem_step_same n _ _ _ _ _ _ Hop He Hastep Hs1) as Hsame.
         cbn [push snd]. exact (IH (Stab.pauli_if F (nth k recs Stab.fzero) st) recs Sa1 T1 Ti1 la S' Hok' Hgs1
                  (SpecSem.eqs_trans n _ _ _ Hsame He1) G1 I1 Hre' Harest Hag).
+      + revert Ho. inversion Hre as [| | | ? P0 c0 ? l' Hre']; subst. intros Ho. cbn [FrameProg.cval] in *.
+        destruct (SpecSem.pauli_if_sound n ev (evk_fxor B kf) F (SpecSem.varf v) st Hgs Ho) as (Hgs1 & S1 & Hs1 & He1).
+        assert (Hop : FrameRun.ok_op n (Run.OpU (FrameProg.cpw (denote (false, F)) (ev (SpecSem.varf v)))
+                                               (FrameProg.cpw (denote (false, F)) (ev (SpecSem.varf v))))) by (split; apply FrameProg.cpw_good; exact Ho).
+        destruct (Htrack Hop) as (T1 & Ti1 & G1 & I1).
+        pose proof (sem_step_same n _ _ _ _ _ _ Hop He Hastep Hs1) as Hsame.
+        cbn [push snd]. exact (IH (Stab.pauli_if F (SpecSem.varf v) st) recs Sa1 T1 Ti1 la S' Hok' Hgs1
+                 (SpecSem.eqs_trans n _ _ _ Hsame He1) G1 I1 Hre' Harest Hag).
   Qed.
 End Complete.
 Print Assumptions records_are_evaluations.
@@ -159,8 +167,9 @@ Definition lookup (L : list (nat * bool)) (i : nat) : bool :=
 
 Lemma ncoins_step o s : Stab.ncoins (fst s) <= Stab.ncoins (fst (SpecSem.sexec o s)).
 Proof.
-  destruct s as [st recs]. destruct o as [e q|e a b|sgn P|F k]; cbn [SpecSem.sexec fst Stab.ncoins]; try lia.
+  destruct s as [st recs]. destruct o as [e q|e a b|sgn P|F k|F v]; cbn [SpecSem.sexec fst Stab.ncoins]; try lia.
   - unfold Stab.measure. destruct (existsb (Stab.is_anti P) (Stab.gens st)); cbn [fst Stab.ncoins]; lia.
+  - unfold Stab.pauli_if. cbn. lia.
   - unfold Stab.pauli_if. cbn. lia.
 Qed.
 Lemma ncoins_run ops : forall s, Stab.ncoins (fst s) <= Stab.ncoins (fst (fold_left (fun s o => SpecSem.sexec o s) ops s)).
@@ -171,17 +180,22 @@ Proof.
   destruct (Nat.eqb (fst p) i) eqn:E; [apply Nat.eqb_eq in E; exfalso; apply (H p); [now left| exact E]|]. apply IH. intros q Hq. apply H. now right.
 Qed.
 
-Lemma agrees_lookup B ops : forall s la rec pre, FrameProg.realize (fun _ => false) rec (map SpecSem.tr ops) la ->
+Definition kmix (base : nat) (ext0 : nat -> bool) (L : list (nat * bool)) : nat -> bool :=
+  fun i => if i <? base then ext0 i else lookup L i.
+
+Lemma agrees_lookup B base ext0 ext ops : forall s la rec pre, FrameProg.realize ext rec (map SpecSem.tr ops) la ->
+  base <= Stab.ncoins (fst s) ->
   (forall p, In p pre -> fst p < Stab.ncoins (fst s)) ->
   Stab.ncoins (fst (fold_left (fun s o => SpecSem.sexec o s) ops s)) < B ->
-  agrees B (lookup (pre ++ coinsof ops s la)) ops s la.
+  agrees B (kmix base ext0 (pre ++ coinsof ops s la)) ops s la.
 Proof.
-  induction ops as [|o ops IH]; intros s la rec pre Hre Hpre Hb; cbn [map] in Hre.
+  induction ops as [|o ops IH]; intros s la rec pre Hre Hbase Hpre Hb; cbn [map] in Hre.
   - inversion Hre; subst. exact Logic.I.
   - destruct la as [|x la]; [inversion Hre|]. cbn [agrees coinsof fold_left] in *.
     pose proof (ncoins_step o s) as Hmono. pose proof (ncoins_run ops (SpecSem.sexec o s)) as Hmono2.
     assert (Hpre' : forall p, In p pre -> fst p < Stab.ncoins (fst (SpecSem.sexec o s))) by (intros p Hp; specialize (Hpre p Hp); lia).
-    destruct o as [e q|e a b|sgn P|F k]; cbn [SpecSem.tr] in Hre.
+    assert (Hbase' : base <= Stab.ncoins (fst (SpecSem.sexec o s))) by lia.
+    destruct o as [e q|e a b|sgn P|F k|F v]; cbn [SpecSem.tr] in Hre.
     + split; [exact Logic.I|]. inversion Hre; subst. cbn [app]. eapply IH; eassumption.
     + split; [exact Logic.I|]. inversion Hre; subst. cbn [app]. eapply IH; eassumption.
     + inversion Hre as [| | ? M b0 ? l' Hre' |]; subst. destruct s as [st recs]. cbn [fst snd] in *.
@@ -189,28 +203,51 @@ Proof.
       * assert (Enc : Stab.ncoins (fst (SpecSem.sexec (SpecSem.SMs sgn P) (st, recs))) = S (Stab.ncoins st)).
         { cbn [SpecSem.sexec]. unfold Stab.measure. rewrite Ean. reflexivity. }
         split.
-        -- split; [lia|]. f_equal. rewrite lookup_skip by (intros p Hp; specialize (Hpre p Hp); lia).
+        -- split; [lia|]. f_equal. unfold kmix. replace (Stab.ncoins st <? base) with false by (symmetry; apply Nat.ltb_ge; lia).
+           rewrite lookup_skip by (intros p Hp; specialize (Hpre p Hp); lia).
            unfold lookup. cbn [app find fst]. now rewrite Nat.eqb_refl.
         -- replace (pre ++ [(Stab.ncoins st, b0)] ++ coinsof ops (SpecSem.sexec (SpecSem.SMs sgn P) (st, recs)) la)
              with ((pre ++ [(Stab.ncoins st, b0)]) ++ coinsof ops (SpecSem.sexec (SpecSem.SMs sgn P) (st, recs)) la) by (now rewrite <- app_assoc).
-           eapply IH; [exact Hre'| | exact Hb].
+           eapply IH; [exact Hre'| exact Hbase'| | exact Hb].
            intros p Hp. apply in_app_or in Hp. destruct Hp as [Hp|[<-|[]]]; [specialize (Hpre p Hp); lia| cbn [fst]; lia].
       * split; [exact Logic.I|]. cbn [app]. eapply IH; eassumption.
     + split; [exact Logic.I|]. inversion Hre; subst. cbn [app]. eapply IH; eassumption.
+    + split; [exact Logic.I|]. inversion Hre; subst. cbn [app]. eapply IH; eassumption.
+Qed.
+
+(* realisations depend on the external bits only at the variables the program uses *)
+Fixpoint vars_below (base : nat) (ops : list SpecSem.sop) : Prop :=
+  match ops with [] => True | SpecSem.SPifv _ v :: r => v < base /\ vars_below base r | _ :: r => vars_below base r end.
+Lemma realize_ext base ext1 ext2 ops : (forall v, v < base -> ext1 v = ext2 v) -> vars_below base ops ->
+  forall rec la, FrameProg.realize ext1 rec (map SpecSem.tr ops) la -> FrameProg.realize ext2 rec (map SpecSem.tr ops) la.
+Proof.
+  intros He. induction ops as [|o ops IH]; intros Hv rec la Hre; cbn [map] in *.
+  - inversion Hre; subst. constructor.
+  - destruct o as [e q|e a b|sgn P|F k|F v]; cbn [SpecSem.tr vars_below] in *; inversion Hre; subst; try (constructor; now apply IH).
+    + match goal with H : FrameProg.realize ext1 rec (map _ ops) ?l0 |- _ =>
+        exact (FrameProg.RF ext2 rec (denote (false, F)) (FrameProg.CRec k) _ _ (IH Hv rec l0 H)) end.
+    + destruct Hv as [Hlt Hv]. cbn [FrameProg.cval]. rewrite (He v Hlt).
+      match goal with H : FrameProg.realize ext1 rec (map _ ops) ?l0 |- _ =>
+        exact (FrameProg.RF ext2 rec (denote (false, F)) (FrameProg.CExt v) _ _ (IH Hv rec l0 H)) end.
 Qed.
 
 (* ---------- completeness ---------- *)
-Theorem spec_complete n ops la S' : Forall (SpecSem.sop_ok n) ops ->
-  FrameProg.realize (fun _ => false) [] (map SpecSem.tr ops) la -> Run.sem_run (fun P => Zplus P) la S' ->
-  exists B kf, fold_left push la [] = map (evk B kf) (snd (fold_left (fun s o => SpecSem.sexec o s) ops (Stab.init n, []))).
+Theorem spec_complete n base ext0 ops la S' : Forall (SpecSem.sop_ok n) ops -> vars_below base ops ->
+  FrameProg.realize ext0 [] (map SpecSem.tr ops) la -> Run.sem_run (fun P => Zplus P) la S' ->
+  exists B kf, base <= B /\ (forall v, v < base -> kf v = ext0 v) /\
+    fold_left push la [] = map (evk B kf) (snd (fold_left (fun s o => SpecSem.sexec o s) ops (SpecSem.st0 n base, []))).
 Proof.
-  intros Hok Hre Hrun.
-  set (B := S (Stab.ncoins (fst (fold_left (fun s o => SpecSem.sexec o s) ops (Stab.init n, []))))).
-  set (kf := lookup (coinsof ops (Stab.init n, []) la)).
-  exists B, kf.
-  apply (records_are_evaluations n B kf ops (Stab.init n) [] (fun P => Zplus P) (fun P => P) (fun P => P) la S' Hok (SpecSem.init_wfgens n)
-           (SpecSem.init_is_zero_state n _ (evk_fzero B kf)) (Run.init_good n) (Run.init_inv n) Hre Hrun).
-  apply (agrees_lookup B ops (Stab.init n, []) la [] [] Hre); [intros p []| unfold B; lia].
+  intros Hok Hv Hre Hrun.
+  set (B := S (Stab.ncoins (fst (fold_left (fun s o => SpecSem.sexec o s) ops (SpecSem.st0 n base, []))))).
+  set (kf := kmix base ext0 (coinsof ops (SpecSem.st0 n base, []) la)).
+  pose proof (ncoins_run ops (SpecSem.st0 n base, [])) as Hmono. cbn [fst SpecSem.st0 Stab.ncoins] in Hmono.
+  exists B, kf. split; [unfold B; lia|]. split; [intros v Hlt; unfold kf, kmix; apply Nat.ltb_lt in Hlt; now rewrite Hlt|].
+  assert (Hre' : FrameProg.realize (fun v => evk B kf (SpecSem.varf v)) [] (map SpecSem.tr ops) la).
+  { apply (realize_ext base ext0); [|exact Hv| exact Hre]. intros v Hlt. unfold SpecSem.varf. rewrite evk_var by (unfold B; lia).
+    unfold kf, kmix. apply Nat.ltb_lt in Hlt. now rewrite Hlt. }
+  apply (records_are_evaluations n B kf ops (SpecSem.st0 n base) [] (fun P => Zplus P) (fun P => P) (fun P => P) la S' Hok (SpecSem.init_wfgens n)
+           (SpecSem.init_is_zero_state n _ (evk_fzero B kf)) (Run.init_good n) (Run.init_inv n) Hre' Hrun).
+  apply (agrees_lookup B base ext0 ext0 ops (SpecSem.st0 n base, []) la [] [] Hre); [cbn; lia| intros p []| unfold B; lia].
 Qed.
 Print Assumptions spec_complete.
 
@@ -227,13 +264,16 @@ Proof.
   rewrite <- IH. cbn [map GF2.dot Nat.add]. rewrite xorb_false_r. apply xorb_comm.
 Qed.
 
-(* completeness in the oracle's own terms: every legal record is satisfiable *)
-Corollary spec_complete_oracle n ops la S' : Forall (SpecSem.sop_ok n) ops ->
-  FrameProg.realize (fun _ => false) [] (map SpecSem.tr ops) la -> Run.sem_run (fun P => Zplus P) la S' ->
-  exists m k, length k = m /\
-    fold_left push la [] = map (SpecProofs.eval_form m k) (snd (fold_left (fun s o => SpecSem.sexec o s) ops (Stab.init n, []))).
+(* completeness in the oracle's own terms: every legal record is satisfiable, with the sweep / fault variables pinned *)
+Corollary spec_complete_oracle n base ext0 ops la S' : Forall (SpecSem.sop_ok n) ops -> vars_below base ops ->
+  FrameProg.realize ext0 [] (map SpecSem.tr ops) la -> Run.sem_run (fun P => Zplus P) la S' ->
+  exists m k, length k = m /\ (forall v, v < base -> v < m /\ nth v k false = ext0 v) /\
+    fold_left push la [] = map (SpecProofs.eval_form m k) (snd (fold_left (fun s o => SpecSem.sexec o s) ops (SpecSem.st0 n base, []))).
 Proof.
-  intros Hok Hre Hrun. destruct (spec_complete n ops la S' Hok Hre Hrun) as (B & kf & E).
-  exists B, (map kf (seq 0 B)). split; [now rewrite map_length, seq_length|]. rewrite E. apply map_ext. intros f. apply evk_is_eval_form.
+  intros Hok Hv Hre Hrun. destruct (spec_complete n base ext0 ops la S' Hok Hv Hre Hrun) as (B & kf & HbB & Hk & E).
+  exists B, (map kf (seq 0 B)). split; [now rewrite map_length, seq_length|]. split.
+  - intros v Hlt. assert (HB : v < B) by lia.
+    split; [exact HB|]. rewrite (nth_indep _ false (kf 0)) by (now rewrite map_length, seq_length). rewrite map_nth, seq_nth by exact HB. now apply Hk.
+  - rewrite E. apply map_ext. intros f. apply evk_is_eval_form.
 Qed.
 Print Assumptions spec_complete_oracle.
